@@ -732,7 +732,7 @@ def r_layout(f):
                     if not okp:
                         bad.append((("mutate", "row_pair_mut-rows", None, "returns (%r, %r)" % (rv.f[0], rv.f[1]), b.line), P.conds))
             # returned aggregate literals
-            if oc[0] == "ret" and isinstance(oc[1], Obj) and oc[1].kind in LAYOUT:
+            if oc[0] == "ret" and isinstance(oc[1], Obj) and oc[1].kind in LAYOUT and not extra_fn:
                 okl, what = literal_ok(oc[1].kind, oc[1].fields, LAYOUT[oc[1].kind], sym, P.conds)
                 if what:
                     lits.append((okl, what))
